@@ -116,7 +116,14 @@ fn tss_safe(rep: &mut Report, r: &mut Rng, places: &[(usize, usize)]) {
     }
     let before: [u8; 0x68] = unsafe { core::ptr::read(p as *const [u8; 0x68]) };
     let st: &'static TaskStateSegment = unsafe { &*p };
-    let d = Descriptor::tss_segment(st);
+    // (a TSS may sit anywhere, also across a page boundary: the buffer offsets cover that)
+    let d = match crate::util::catch_msg(|| Descriptor::tss_segment(st)) {
+        Ok(d) => d,
+        Err(m) => {
+            rep.violation("tss_segment|panicked", J::obj(vec![("tss", J::hex(p as u64)), ("page_offset", J::hex(p as u64 & 0xfff)), ("contents", J::s(cls)), ("panic", J::s(m)), ("profile", J::s(crate::util::profile_name()))]));
+            return;
+        }
+    };
     let after: [u8; 0x68] = unsafe { core::ptr::read(p as *const [u8; 0x68]) };
     let addr = p as u64;
     match d {
@@ -300,7 +307,13 @@ pub fn run(a: &Args, rep: &mut Report) {
             };
             let p = (x & !3).max(4);
             let st: &'static TaskStateSegment = unsafe { &*(p as *const TaskStateSegment) };
-            let d = Descriptor::tss_segment(st);
+            let d = match crate::util::catch_msg(|| Descriptor::tss_segment(st)) {
+                Ok(d) => d,
+                Err(m) => {
+                    rep.violation("tss_segment|panicked", J::obj(vec![("tss", J::hex(p)), ("page_offset", J::hex(p & 0xfff)), ("address_class", J::s(c)), ("panic", J::s(m)), ("profile", J::s(crate::util::profile_name()))]));
+                    break;
+                }
+            };
             let u = unsafe { Descriptor::tss_segment_unchecked(p as *const TaskStateSegment) };
             let ok = match d {
                 Descriptor::SystemSegment(lo, hi) => {
